@@ -50,7 +50,8 @@ theorem leaf_level_change (lpn fresh : Nat → Nat) (a0 : Nat) (db : List (DbLea
       applyAll (lvlEnts (db.map fun l => (l.sep, lpn l.sep))) (chs (trackerChanges fresh tr.inner)) =
         lvlEnts (lvlOf lpn fresh a0 (x.r.out ++ x.r.rest.map .old)) ∧
       (∀ k, delV tr.inner k = if k ∈ db.map (·.sep) ∧ k ∉ (oldsOf x.r.out ++ x.r.rest).map (·.sep) then some (lpn k) else none) ∧
-      (∀ k, (insV tr.inner k).map (fun y => resolve fresh y.2) = newAt fresh a0 (newsOf x.r.out) k) := by
+      (∀ k, (insV tr.inner k).map (fun y => resolve fresh y.2) = newAt fresh a0 (newsOf x.r.out) k) ∧
+      (∀ k, insV tr.inner k = expInsL a0 ((newsOf x.r.out).map fun l => (l.sep, l)) k) := by
   obtain ⟨⟨consumed, hc1, hc2⟩, hins⟩ := hb
   -- separators of the old level are pairwise different
   have hperm : ((consumed ++ (oldsOf x.r.out ++ x.r.rest)).map (·.sep)).Perm (db.map (·.sep)) := hc2.map _
@@ -81,7 +82,13 @@ theorem leaf_level_change (lpn fresh : Nat → Nat) (a0 : Nat) (db : List (DbLea
     | some y => rfl
     | none => simp [insV, lookupE]
   have hcs := trackerChanges_asc fresh tr.inner hasc
-  refine ⟨tr, by rw [e1, hlen], hasc, hx, hcs, ?_, ?_, ?_, hI'⟩
+  have hI2 : ∀ k, insV tr.inner k = expInsL a0 ((newsOf x.r.out).map fun l => (l.sep, l)) k := by
+    intro k
+    rw [hI k, expIns_eq, hins]
+    cases expInsL a0 ((newsOf x.r.out).map fun l => (l.sep, l)) k with
+    | some y => rfl
+    | none => simp [insV, lookupE]
+  refine ⟨tr, by rw [e1, hlen], hasc, hx, hcs, ?_, ?_, ?_, hI', hI2⟩
   · -- a `None` entry names a consumed leaf
     intro k hk
     unfold trackerChanges at hk
